@@ -22,9 +22,11 @@
 (*             stock = tag_re left untouched,                              *)
 (*             n / cached = templates compiled / held, fresh = context     *)
 (*             behaviour of a registry without own context_behavior,       *)
-(*             watch = a file_changed receiver was installed, autod =      *)
-(*             autodiscovery ran, loaded = modules of the library pool      *)
-(*             imported, failed = class of the exception raised             *)
+(*             watch = "yes" iff sending Django's file_changed signal for  *)
+(*             a file below the directory wtarget triggered a reload,      *)
+(*             autod = "yes" iff a python file kept in [app]/<d>, d in     *)
+(*             probedirs, was imported, loaded = modules of the library    *)
+(*             pool imported, failed = class of the exception raised       *)
 (* Every observation must lie in the set Settings admits.  An observation  *)
 (* outside it that equals what the named deviation predicts is reported    *)
 (* as "dev:<class>".  One REJECT line per failing event, ACCEPT for a      *)
@@ -41,6 +43,7 @@ Events == Traces[tid].events
 \* the world of get_component_dirs (the same for every trace of a batch)
 FS == {Traces[1].fs[i] : i \in DOMAIN Traces[1].fs}
 Apps == {Traces[1].apps[i] : i \in DOMAIN Traces[1].apps}
+ProbeDirs == {Traces[1].probedirs[i] : i \in DOMAIN Traces[1].probedirs}
 Ev == Events[l]
 
 TrInit == /\ tid = 1 /\ l = 1 /\ phase = "step" /\ clean = TRUE
@@ -118,8 +121,8 @@ StartupFailing(e) ==
       devwant == {CachedAfterOne(e.n, bd) : bd \in DevAdm(user, form, base, "template_cache_size")}
       dk == DevKey(user, form, "template_cache_size")
       freshOK == e.fresh \in FreshRegistryBehavior(user, form, base)
-      watchOK == B(e.watch) \in WatchesFiles(user, form, base)
-      autodOK == B(e.autod) \in Autodiscovers(user, form, base)
+      watchOK == B(e.watch = "yes") \in ReloadsOnChangeIn(user, form, base, FS, Apps, e.wtarget)
+      autodOK == B(e.autod = "yes") \in AutodiscoverImports(user, form, base, ProbeDirs)
       libsOK == \E x \in LibrariesLoaded(user, form, base) :
                    {x.l[i] : i \in DOMAIN x.l} = {e.loaded[i] : i \in DOMAIN e.loaded} IN
   (IF dynOK THEN {} ELSE {"startup_dynamic_name"})
@@ -151,8 +154,9 @@ Done == /\ tid <= Len(Traces) /\ phase = "step" /\ l > Len(Events)
 TrNext == Step \/ Cmp \/ Done
 TrSpec == TrInit /\ [][TrNext]_trVars
 
-\* the theorems of Settings on every settings state a trace went through
-TraceTheorems == tid <= Len(Traces) =>
+\* the theorems of Settings on every settings state a trace went through (checked right after a change)
+TraceTheorems == (tid <= Len(Traces) /\ phase = "cmp"
+                  /\ Ev.op \in {"set", "unset", "reform", "drop", "setbase", "load"}) =>
    /\ WellFormed(user, form) /\ DirsTheorems(FS, Apps)
    /\ DefaultsWhenEmpty /\ FormIndependent /\ DeterminedUnlessAmbiguous /\ GivenWins
    /\ EmptyIsAValue /\ ContextBehaviorClosed /\ AliasEquivalent
